@@ -22,7 +22,7 @@ RULE = ("exhaustive: every symbol of every DNA encoding (ASCII: the ten letters 
         "index list/array/mask/slice, sorted, replace, concatenate; windows around stranded locations and interval midpoints; "
         "read from a BED file) judged on the intervals the derived object must denote")
 EXHAUSTIVE = {"quick": False, "thorough": False}
-MODEL_OPS = {"rc", "strand", "translate", "transcripts"}
+MODEL_OPS = {"rc", "strand", "translate", "transcripts", "pipe", "strand_gi"}
 CASE_TIMEOUT_S = 60
 PARALLEL = 0
 ASSUMPTIONS = [
@@ -44,7 +44,10 @@ MANIFEST = {
             "proved equal to row selection); transcript sequences (genes.py: exon slices joined per run of transcript ids, "
             "reverse-complemented as a whole for '-'); each entry point on ANY strand byte (strand_dna_def, "
             "extract_stranded_def; they differ on '.'); completeness (revcompRagged_isSome_iff, translate_encoding_error_iff, "
-            "translate_assertion_iff); the spec pinned by list laws (specRevComp_append/_flatten/_getElem?, chunks3_flatten, "
+            "translate_assertion_iff); tables of sequences (Table/runPipe: table_get_replace, applySeq_compose, table_rc_twice: "
+            "a derived table carries its own, latest sequence column) and derived interval objects (GI/windows: derived_keeps_kind, "
+            "clip_in_bounds, getitem_derived: clause 4 for any clip/selection/replace/concatenate/window derivation of a stranded "
+            "object); the spec pinned by list laws (specRevComp_append/_flatten/_getElem?, chunks3_flatten, "
             "specTranslate_append, stop_codons_iff); translation of every row with "
             "3 | length = standard genetic code per codon (written by amino-acid families). The complement tables of ASCII/ACGT/"
             "ACGTN/ACTG/ACTGN and the 64-codon table are re-extracted behaviourally from /repo on every run into Gen/C14.lean and "
@@ -938,7 +941,19 @@ def _codes(enc, s):
 def model_request(c):
     op = c["op"]
     if op == "pipe":
-        return None
+        steps = []
+        for st in c["steps"]:
+            d = {"k": st[0]}
+            if st[0] == "replace":
+                d["rows"] = st[1]
+            elif st[0] == "idx":
+                d["p"] = st[1]
+            elif st[0] == "concat":
+                d["n"] = st[1]
+            steps.append(d)
+        return {"op": "pipe", "rows": c["rows"], "named": c["carrier"] != "ragged", "steps": steps}
+    if op == "strand" and "gi" in c:
+        return _gi_request(c)
     if op in ("seq", "fresh", "translate_custom"):
         return None      # the Lean model is pure: a sequence of calls is the list of the single calls (compared there)
     if op == "rc":
@@ -954,6 +969,45 @@ def model_request(c):
     if op == "transcripts" and c["via"] == "duck" and c["exons"]:
         return {"op": "transcripts", "codes": _codes("ACGTN", c["seq"]), "exons": c["exons"]}
     return None   # translate_enc, transcripts read back from a GTF file: implementation vs oracle only
+
+
+def _gi_request(c):
+    """the derivation as the Lean model runs it (`GI.step`, `windows`): selections of every spelling are index lists (`sorted`
+    = the stable permutation the generator computed), replacing a column by itself is `same`; locations are sent after their
+    own selection / sorting, interval midpoints as locations"""
+    g = c["gi"]
+    steps = []
+    cnt = None
+    for st in g["steps"]:
+        k = st[0]
+        if k == "clip":
+            steps.append({"k": "clip"})
+        elif k in ("idx", "idxarr"):
+            steps.append({"k": "idx", "p": st[1]})
+        elif k == "mask":
+            steps.append({"k": "idx", "p": [i for i, m in enumerate(st[1]) if m]})
+        elif k == "slice":
+            steps.append({"k": "idx", "p": list(range(st[1], st[2]))})
+        elif k == "sorted":
+            steps.append({"k": "idx", "p": st[1]})
+        elif k == "replace":
+            steps.append({"k": "same"})
+        else:
+            steps.append({"k": "concat", "n": st[1]})
+    req = {"op": "strand_gi", "enc": c["enc"], "codes": [_codes(c["enc"], s) for s in c["seqs"]],
+           "stranded": c["via"] == "genomic", "steps": steps}
+    if g["origin"] in ("loc", "center"):
+        locs = g["locs"] if g["origin"] == "loc" else [[ch, (a + b) // 2, st] for ch, a, b, st in g["ivs0"]]
+        rank = {ch: i for i, ch in enumerate(c.get("ctx", list(range(len(c["seqs"])))))}
+        for st in g.get("loc_steps", []):
+            if st[0] == "idx":
+                locs = [locs[i] for i in st[1]]
+            else:
+                locs = sorted(locs, key=lambda x: (rank[x[0]], x[1]))
+        req.update(origin="loc", locs=locs, flank=g["flank"])
+    else:
+        req.update(origin="ivs", ivs=g["ivs0"])
+    return req
 
 
 # --------------------------------------------------------------------------- cases
@@ -1197,8 +1251,9 @@ def _derived(rng, n):
                 ivs = ivs[a:b]
                 steps.append(["slice", a, b])
             elif k == "sorted":
-                ivs = sorted(ivs, key=lambda x: (rank[x[0]], x[1], x[2]))
-                steps.append(["sorted"])
+                perm = sorted(range(cnt), key=lambda i: (rank[ivs[i][0]], ivs[i][1], ivs[i][2]))
+                ivs = [ivs[i] for i in perm]
+                steps.append(["sorted", perm])
             elif k == "replace":
                 steps.append(["replace", rng.choice(["start", "stop"])])
             else:
